@@ -205,9 +205,46 @@ def judge_structure(ctx, g, n, edges, directed, cls):
     return E
 
 
+def scribble(g, n):
+    """The caller uses up the lists it was handed (a work-stack walk pops from and extends the list of children it asked for):
+    they are the caller's lists - what the graph reports afterwards is unchanged."""
+    for v in range(n):
+        for q in ("children", "parents", "neighbours"):
+            f = getattr(g, q, None)
+            if f is None:
+                continue
+            try:
+                r = f(v)
+            except Exception:
+                continue
+            if isinstance(r, list):
+                r.append(10 ** 6)
+                r.reverse()
+                del r[:]
+    try:
+        for l in g.get_adjacency_list():
+            if isinstance(l, list):
+                del l[:]
+    except Exception:
+        pass
+    for nm in ("leaves",):
+        r = getattr(g, nm, None)
+        if isinstance(r, list):
+            del r[:]
+    if hasattr(g, "vertices_at_depth"):
+        for dpt in range(3):
+            try:
+                r = g.vertices_at_depth(dpt)
+                if isinstance(r, list):
+                    del r[:]
+            except Exception:
+                pass
+
+
 def after_queries(ctx, g, n, edges, directed, cls, W):
     ctx.tap("structure_after_queries", "calls")
     nv = sum(v["count"] for v in ctx.violations.values())
+    scribble(g, n)
     judge_structure(ctx, g, n, edges, directed, cls)
     if sum(v["count"] for v in ctx.violations.values()) > nv:
         ctx.fail("queries_changed_what_the_graph_reports", cls=cls)
@@ -612,6 +649,14 @@ def w_trees(ctx, rng, i):
     judge_paths(ctx, t, n, E, True, cls, tp)
     if wts is None:
         judge_shortest(ctx, t, n, {e: 1.0 for e in E}, True, cls, tp[:6], unweighted=bool(i % 2))
+    # the caller uses up the lists it was handed (a copy of the tree in one case out of two): the tree answers as before
+    nv_ = sum(v["count"] for v in ctx.violations.values())
+    scribble(t.copy() if hasattr(t, "copy") and rng.random() < 0.5 else t, n)
+    ctx.tap("tree_after_the_caller_used_up_its_answers", "calls"); ctx.tap("tree_after_the_caller_used_up_its_answers", "checked")
+    judge_structure(ctx, t, n, edges, True, cls)
+    judge_tree(ctx, t, n, E, root, cls)
+    if sum(v["count"] for v in ctx.violations.values()) > nv_:
+        ctx.fail("queries_changed_what_the_graph_reports", cls=cls, mech="lists_handed_out_were_edited_by_the_caller")
     # a wrong root must be refused (the tree is not an arborescence from there) unless n == 1
     wrong = int((root + 1 + rng.integers(0, n - 1)) % n)
     if wrong != root:
